@@ -22,3 +22,13 @@ func VerifNonceLocksFree(p MemPool) bool {
 	nc.pendingMu.Unlock()
 	return true
 }
+
+// VerifBatchSeqNo reports the height the pool gave to the batch it cut last (read by the simulator at quiescent
+// points only, when no goroutine of the node is running).
+func VerifBatchSeqNo(p MemPool) uint64 {
+	mpi, ok := p.(*mempoolImpl)
+	if !ok || mpi == nil {
+		return 0
+	}
+	return mpi.batchSeqNo
+}
